@@ -160,6 +160,35 @@ pub fn run(ctx: &mut Ctx) {
         cases.push(c);
         streams.push(s);
     }
+    // ---- counts far outside the envelope, up to usize::MAX (any size derived from a count BEFORE the `supports`
+    //      pre-check — a capacity, a product — overflows or cannot be allocated here): the one-shot functions answer
+    //      like the streaming constructors
+    let big: [usize; 6] = [usize::MAX, usize::MAX - 1, usize::MAX / 2 + 1, 1 << 60, 1 << 59, (1 << 59) + 7];
+    let n_huge = if ctx.thorough() { 24 } else { 8 };
+    for j in 0..n_huge {
+        let a = *ctx.rng.pick(&big);
+        let b = if j % 3 == 0 { *ctx.rng.pick(&big) } else { ctx.rng.range(1, 9) };
+        let (k, r) = if j % 2 == 0 { (a, b) } else if j % 3 == 0 { (a, b) } else { (b, a) };
+        let (k, r) = if j % 4 == 1 { (a, *ctx.rng.pick(&big)) } else { (k, r) };
+        let mut c = Case::new(&format!("oneshot-huge-counts-{}", j));
+        c.with_model = false;
+        let mut s = Case::new("streaming");
+        s.with_model = false;
+        let shards: Vec<Vec<u8>> = (0..ctx.rng.range(1, 4)).map(|_| ctx.rng.bytes(2)).collect();
+        if j % 2 == 0 {
+            c.push(format!("X encode {} {} {}", k, r, shards.iter().map(|x| to_hex(x)).collect::<Vec<_>>().join(",")));
+            s.push(format!("E new rs default {} {} 2", k, r));
+            ctx.count("oneshot", "encode-huge-counts");
+        } else {
+            let o: Vec<String> = shards.iter().enumerate().map(|(i, b)| format!("{}:{}", i, to_hex(b))).collect();
+            let rc = if j % 4 == 1 { format!("0:{}", to_hex(&ctx.rng.bytes(2))) } else { "-".to_string() };
+            c.push(format!("X decode {} {} {} {}", k, r, o.join(","), rc));
+            s.push(format!("D new rs default {} {} 2", k, r));
+            ctx.count("oneshot", "decode-huge-counts");
+        }
+        cases.push(c);
+        streams.push(s);
+    }
     let runs = ctx.run_cases(&cases);
     for ((c, s), run) in cases.iter().zip(streams.iter()).zip(runs.iter()) {
         if s.lines.is_empty() {
